@@ -258,6 +258,20 @@ theorem unpatch_restores (origin to : Addr) (funcSize : Nat) (s : State) (origin
       rw [hw] at this
       exact this
 
+/-- the same for the bytes goom really saves, `RawRead(origin, len(jumpData))` (patch.go:123): they are 13 bytes, so
+    `Unpatch` writes exactly the entry jump's extent (`unpatch_touches_only`) and restores memory. -/
+theorem unpatch_restores_saved (origin to : Addr) (funcSize : Nat) (s : State) (hsz : 13 < funcSize)
+    (h : NoWrap origin 13) (hm : MappedAll s (pages origin 13)) :
+    (savedOriginBytes s origin to).length = 13 ∧
+    ∃ s1, install origin to funcSize none s = (s1, InstallRes.done Outcome.ok) ∧
+      (unpatch origin (savedOriginBytes s origin to) s1).2 = Outcome.ok ∧
+      (unpatch origin (savedOriginBytes s origin to) s1).1.mem = s.mem := by
+  have hlen : (savedOriginBytes s origin to).length = 13 := by
+    simp only [savedOriginBytes, readBytes, List.length_map, List.length_range, jump_len]
+  refine ⟨hlen, unpatch_restores origin to funcSize s _ hsz hlen ?_ h hm⟩
+  intro j hj
+  simp only [savedOriginBytes, readBytes, List.getElem_map, List.getElem_range]
+
 /-- the hypotheses of `unpatch_restores` hold for a 32-byte function of INT3 at 0x401fe0 in an all-r-x image -/
 example : ∃ (s : State) (ob : List Byte), ob.length = 13 ∧
     (∀ j (hj : j < ob.length), ob[j] = s.mem (0x401fe0#64 + BitVec.ofNat 64 j)) ∧
